@@ -359,7 +359,9 @@ class CSSSerializer(object):
         indent a block like a CSSStyleDeclaration to the given level
         which may be higher than self._level (e.g. for CSSStyleDeclaration)
         """
-        if not self.prefs.lineSeparator:
+        if not self.prefs.lineSeparator.strip(' \t'):
+            # no separator, or one made of blanks only: it cannot be told
+            # from the blanks inside strings and URLs, so no split is possible
             return text
         return self.prefs.lineSeparator.join(
             ['%s%s' % (level * self.prefs.indent, line)
